@@ -514,6 +514,9 @@ func (d *Decl) instantiate(g *Grp, cmd *Cmd, sv reflect.Value, log *CallLog, lat
 			o.Val.Set(makeCallback(o, log))
 		} else if len(o.Initial) > 0 {
 			setInitial(o)
+		} else if o.T.K == KMode && o.T.W == WPtr {
+			// the program allocates the value and gives it its state (the list of modes it completes from)
+			o.Val.Set(reflect.ValueOf(&ModeVal{allowed: vocabulary}))
 		}
 	}
 	for _, sg := range g.Subs {
